@@ -39,27 +39,28 @@ type World struct {
 
 // Features is the swarm mask of one world.
 type Features struct {
-	NNamespaces int
-	NsObjProb   int // out of 4: probability that a namespace has a Namespace object
-	Kinds       []string
-	NWorkloads  int
-	NNetpols    int
-	NANPs       int
-	BANP        bool
-	Ingress     bool
-	IPBlocks    bool
-	NamedPorts  bool
-	Exprs       bool
-	SharedOwner bool // several bare pods under one controller
-	AllNsObjs   bool // every namespace has an object (needed by the eval CLI)
-	PodsOnly    bool // only bare pods (eval CLI)
-	PortDrift   bool // pods of one owner agree on labels but not on container ports (a rollout in progress)
-	Broad       bool // many policies with mostly empty selectors: several policies select the same pods
-	Large       bool // more than a bucket's worth of everything: maps grow, outputs get long
-	DefaultNS   bool // one namespace is `default`, and resources in it may leave the namespace field out
-	OnlyIP      bool // every rule peer is an ipBlock (workloads talk to addresses only)
-	Iso         bool // an extra namespace "iso" whose only workload is cut off from every real peer but not from hypothetical ones
-	HostAddrs   bool // ipBlocks may be single addresses: the nodes' (the classic "let the kubelet probe"), a pod's, a stranger's
+	NNamespaces  int
+	NsObjProb    int // out of 4: probability that a namespace has a Namespace object
+	Kinds        []string
+	NWorkloads   int
+	NNetpols     int
+	NANPs        int
+	BANP         bool
+	Ingress      bool
+	IPBlocks     bool
+	NamedPorts   bool
+	Exprs        bool
+	SharedOwner  bool // several bare pods under one controller
+	AllNsObjs    bool // every namespace has an object (needed by the eval CLI)
+	PodsOnly     bool // only bare pods (eval CLI)
+	PortDrift    bool // pods of one owner agree on labels but not on container ports (a rollout in progress)
+	Broad        bool // many policies with mostly empty selectors: several policies select the same pods
+	Large        bool // more than a bucket's worth of everything: maps grow, outputs get long
+	DefaultNS    bool // one namespace is `default`, and resources in it may leave the namespace field out
+	OnlyIP       bool // every rule peer is an ipBlock (workloads talk to addresses only)
+	Iso          bool // an extra namespace "iso" whose only workload is cut off from every real peer but not from hypothetical ones
+	IngressHeavy bool // force the ingress-heavy profile (otherwise a third of the worlds with ingress resources)
+	HostAddrs    bool // ipBlocks may be single addresses: the nodes' (the classic "let the kubelet probe"), a pod's, a stranger's
 	// selectors with expressions written so far in this world: a later rule may say the same thing in another spelling
 	// (expressions or values in another order), as happens when policies are written by different people
 	pool *[]metav1.LabelSelector
@@ -781,7 +782,7 @@ func genWorld(r *rng, f Features) *World {
 	if f.Ingress && len(targets) > 0 {
 		// a third of the worlds with ingress resources are ingress-heavy: a workload with several ports behind one
 		// service that exposes all of them, and several Ingress objects that pick their port by name
-		heavy := r.chance(1, 3)
+		heavy := r.chance(1, 3) || f.IngressHeavy
 		for i, n := 0, r.between(1, 2); i < n; i++ {
 			t := pick(r, targets)
 			if heavy {
@@ -793,7 +794,7 @@ func genWorld(r *rng, f Features) *World {
 			}
 			svc := fmt.Sprintf("svc%d", i)
 			svcSel := svcSelector(r, t.labels)
-			if heavy && r.chance(1, 2) {
+			if heavy && (f.IngressHeavy || r.chance(1, 2)) {
 				// one label only: the service stands in front of every workload that carries it (blue and green), and these
 				// need not agree on what number a port name stands for
 				for _, k := range sortedKeys(t.labels) {
